@@ -26,23 +26,37 @@ def pickKeys (table : List (List Key)) (v : FlatMap) : List Key :=
   if table.isEmpty then [] else
   table.getD ((fnv32 (v.foldl (fun s kv => s ++ kv.1 ++ ",") "")).toNat % table.length) []
 
+/-- completion-order rules probed by the oracle (the same rule is applied at every nesting
+    level): 0 = submission order, 1 = reverse, then rotations, "i-th last", "i-th first" -/
+def ruleSched {V} (width rule : Nat) : Sched V := fun _ l =>
+  if rule == 0 then l
+  else if rule == 1 then l.reverse
+  else
+    let i := (rule - 2) % (width + 1)
+    match (rule - 2) / (width + 1) with
+    | 0 => (l.drop i) ++ (l.take i)
+    | 1 => (l.eraseIdx i) ++ (l.drop i).take 1
+    | _ => (l.drop i).take 1 ++ (l.eraseIdx i)
+
+def numRules (width : Nat) : Nat := 2 + 3 * (width + 1)
+
 mutual
-partial def parseBody (key : Key) (j : Json) : JE (FlatMap → Except Err FlatMap) := do
+partial def parseBodyR (rule : Nat) (key : Key) (j : Json) : JE (FlatMap → Except Err FlatMap) := do
   match (← J.str j "op") with
   | "tag" => pure (fun v => .ok (tagBody key v))
   | "pass" => pure (fun v => .ok v)
   | "fail" => do let id ← J.nat j "id"; pure (fun _ => .error { cls := .user id })
   | "graph" => do
-      let g ← parseGraph (← J.field j "g")
+      let g ← parseGraphR rule (← J.field j "g")
       let r := compile defaultStepSlack g
-      pure (fun v => (run flatOps r v).result)
+      pure (fun v => (runS flatOps r (ruleSched 8 rule) v).result)
   | op => throw s!"bad body op {op}"
 
-partial def parseGraph (j : Json) : JE (GraphDef FlatMap) := do
+partial def parseGraphR (rule : Nat) (j : Json) : JE (GraphDef FlatMap) := do
   let mode := J.strD j "mode" "pregel"
   let nodes ← (← J.arr j "nodes").mapM (fun n => do
     let k ← J.str n "key"
-    let b ← parseBody k (← J.field n "body")
+    let b ← parseBodyR rule k (← J.field n "body")
     pure (k, b))
   let edges ← (J.arrD j "edges").mapM (fun e => do
     match e with
@@ -61,6 +75,10 @@ partial def parseGraph (j : Json) : JE (GraphDef FlatMap) := do
   pure { dag := mode == "dag", eager := false, maxSteps := J.natD j "maxSteps" 0,
          nodes := nodes, edges := edges, branches := branches }
 end
+
+/-- submission-order variants (rule 0) under the original names -/
+def parseGraph (j : Json) : JE (GraphDef FlatMap) := parseGraphR 0 j
+def parseBody (key : Key) (j : Json) : JE (FlatMap → Except Err FlatMap) := parseBodyR 0 key j
 
 def errClassJson : ErrClass → Json
   | .user id => Json.mkObj [("c", "user"), ("id", id)]
@@ -96,7 +114,7 @@ open Lean EinoV EinoV.Engine
 /-- Run the graph of case `j` on `input`; output {"result":…, "trace":[[{"k":key,"in":…,"sub":…}]]}
     where "sub" is the nested outcome of a graph node run on that task's input. -/
 partial def outcomeJson (j : Json) (input : FlatMap) : JE Json := do
-  let g ← parseGraph j
+  let g ← parseGraphR 0 j
   let r := compile defaultStepSlack g
   let out := run flatOps r input
   let nodesJ := J.arrD j "nodes"
@@ -118,16 +136,14 @@ partial def outcomeJson (j : Json) (input : FlatMap) : JE Json := do
     pure (J.mkArr ts))
   -- which failure a run reports can depend on the order in which the tasks of the failing
   -- step complete: every result reachable under the probed completion schedules is legitimate
-  let width := out.trace.foldl (fun m st => max m st.length) 1
-  let mkS (f : List (Key × Except Err FlatMap) → List (Key × Except Err FlatMap)) : Sched FlatMap := fun _ l => f l
-  let scheds : List (Sched FlatMap) :=
-    [mkS (fun l => l.reverse)] ++
-    (List.range width).map (fun i => mkS (fun l => (l.drop i) ++ (l.take i))) ++
-    (List.range width).map (fun i => mkS (fun l => (l.eraseIdx i) ++ (l.drop i).take 1)) ++
-    (List.range width).map (fun i => mkS (fun l => (l.drop i).take 1 ++ (l.eraseIdx i)))
-  let alts : List Json := match out.result with
-    | .error _ => ((scheds.map (fun sc => (resultJson (runS flatOps r sc input).result).compress)).eraseDups).filterMap (fun t => (Json.parse t).toOption)
-    | .ok _ => []
+  let alts : List Json ← match out.result with
+    | .error _ => do
+        let rs ← (List.range (numRules 8)).mapM (fun rule => do
+          let g' ← parseGraphR rule j
+          let r' := compile defaultStepSlack g'
+          pure (resultJson (runS flatOps r' (ruleSched 8 rule) input).result).compress)
+        pure (rs.eraseDups.filterMap (fun t => (Json.parse t).toOption))
+    | .ok _ => pure []
   pure (Json.mkObj [("result", resultJson out.result), ("trace", J.mkArr steps), ("alts", J.mkArr alts)])
 
 end EinoV.Oracle.GraphCase
